@@ -71,6 +71,7 @@ type NROpt struct {
 	Invoker        bool   // add the optional invoker signer/witness
 	NVB            uint32 // fallback NotValidBefore height (0 = far in the future)
 	WrongAlphabet  bool   // second signer/witness is not the current alphabet multisig
+	WrongAlphaWit  bool   // alphabet signer account is right, but its witness carries another verification script
 	ProxyWitness   bool   // non-empty witness for the proxy signer
 	EmptyInvokerW  bool   // invoker present but its witness is empty
 	BadPlaceholder bool   // notary placeholder witness has a verification script
@@ -123,6 +124,9 @@ func (w *World) Request(script []byte, o NROpt) *payload.P2PNotaryRequest {
 	invoker := Key("invoker")
 	signers := []transaction.Signer{{Account: w.Proxy}, {Account: hash.Hash160(ms)}}
 	wits := []transaction.Witness{{}, {VerificationScript: ms, InvocationScript: []byte{}}}
+	if o.WrongAlphaWit {
+		wits[1].VerificationScript = multisig(keys.PublicKeys{Key("wrong-alphabet").PublicKey()})
+	}
 	if o.ProxyWitness {
 		wits[0].InvocationScript = []byte{byte(opcode.PUSH1)}
 	}
